@@ -270,6 +270,44 @@ theorem C19_refused_keeps_value (d : Decl) (s : Agg) (h : Reachable d s) (op : O
     simp only [step] at h2 ⊢
     cases op <;> simp only at h2 ⊢ <;> first | rfl | (split <;> first | rfl | (rename_i hc; simp [hc] at h2))
 
+/-! ## non-interference between containers -/
+
+/-- What one container answers does not depend on what was done to any other container, before or in between: in any
+interleaved history over any number of containers, the answers given for container `i` are the answers `i` gives to its
+own operations alone.  (The implementation must therefore behave the same in a fresh interpreter and after any other
+histories — the check replays a disagreeing history in a fresh process to tell the two apart.) -/
+theorem C19_noninterference (w : List Agg) (i : Nat) (a : Agg) (hw : w[i]? = some a) (h : List (Nat × Op)) :
+    ((World.run w h).filter (fun p => p.1 = i)).map (fun p => p.2) =
+      (a.run ((h.filter (fun p => p.1 = i)).map (fun p => p.2))).map some := by
+  induction h generalizing w a with
+  | nil => rfl
+  | cons x rest ih =>
+    obtain ⟨j, op⟩ := x
+    by_cases hj : j = i
+    · subst hj
+      have hlt : j < w.length := (List.getElem?_eq_some_iff.mp hw).1
+      have hw' : (w.set j (a.step op).1)[j]? = some (a.step op).1 := by
+        simp [List.getElem?_set_self hlt]
+      simp only [World.run, World.step, hw, List.filter_cons, decide_true, if_true, List.map_cons, Agg.run,
+        Option.map_some]
+      rw [ih _ _ hw']
+    · have hne : ¬ (j = i) := hj
+      cases hwj : w[j]? with
+      | none =>
+        simp only [World.run, World.step, hwj, List.filter_cons, hne, decide_false, Bool.false_eq_true, if_false]
+        exact ih w a hw
+      | some b =>
+        have hw' : (w.set j (b.step op).1)[i]? = some a := by
+          rw [List.getElem?_set_ne hj]; exact hw
+        simp only [World.run, World.step, hwj, List.filter_cons, hne, decide_false, Bool.false_eq_true, if_false]
+        exact ih _ a hw'
+
+/-- `check_type` against an aggregate base type: an inner aggregate is accepted iff it is the same kind of aggregate
+with the same base type — whatever was accepted before (seeded regression C19-a2). -/
+example : runDecl ⟨.array, 1, some 3, .agg .array 2, false, true⟩
+    [.set 1 ⟨.agg .array 2, 7⟩, .set 2 ⟨.agg .array 0, 8⟩, .set 2 ⟨.agg .list 2, 9⟩, .set 2 ⟨2, 1⟩, .get 2]
+    = some [.ok, .refused, .refused, .refused, .unset] := by decide
+
 /-! ## the hypotheses are satisfiable, the specification discriminates -/
 
 example : Reachable ⟨.bag, 0, some 2, 0, false, false⟩
